@@ -37,13 +37,25 @@ def generic_slot(L):
 RAW_NAMES = ["r#type", "r#fn", "r#match", "r#loop"]
 
 
-def with_names(L, guise=()):
+TYPE_NAMES = ["Lf", "Lf", "Clone", "Default", "Ordering", "Eq", "Item", "lf_lower", "Copy_", "Debug", "Hash", "Add", "Option_"]
+
+
+def tname(L):
+    return L.get("tname", "Lf")
+
+
+def with_names(L, guise=(), k=0):
     """the descriptor with the field names the judge must see in Debug output (raw identifiers print without `r#`) and their source spelling"""
     L = json.loads(json.dumps(L))
     for v in L["variants"]:
         for j, f in enumerate(v["fields"]):
             f["src"] = RAW_NAMES[j] if "raw_fields" in guise else f.get("name", "f%d" % j)
             f["name"] = f["src"].replace("r#", "")
+    if "type_name" in guise:
+        # the type called like something else (a struct prints its own name: the descriptor is told)
+        L["tname"] = TYPE_NAMES[k % len(TYPE_NAMES)]
+        if L["kind"] == "struct":
+            L["variants"][0]["name"] = L["tname"]
     return L
 
 
@@ -51,7 +63,7 @@ def fsrc(L, vi, j):
     return L["variants"][vi - 1]["fields"][j].get("src", "f%d" % j)
 
 
-GUISES = ["copy", "copy", "marker_spelled_ty", "paren_ty", "alias_ty", "proj_ty", "empty_where", "raw_fields", "foreign_attrs", "macro_ty", "trailing_commas", "param_default", "vis"]
+GUISES = ["copy", "copy", "type_name", "item_attrs", "marker_spelled_ty", "paren_ty", "alias_ty", "proj_ty", "empty_where", "raw_fields", "foreign_attrs", "macro_ty", "trailing_commas", "param_default", "vis"]
 
 
 def item_src(L, entry, order=0, generic=False, guise=()):
@@ -81,6 +93,9 @@ def item_src(L, entry, order=0, generic=False, guise=()):
         head = "#[derive(::derive_ex::Ex)] #[derive_ex(%s%s)]%s#[derive_ex(%s)]" % (", ".join(ts[:k]), tc, mid, ", ".join(ts[k:]))
     if "foreign_attrs" in guise:
         head = "#[doc = \"item\"] " + head + " #[allow(dead_code)]"
+    if "item_attrs" in guise:
+        # unrelated attributes of the item: layout, exhaustiveness, conditional attributes, lint levels - before and after the request
+        head = "#[cfg_attr(all(), allow(dead_code))] #[non_exhaustive] " + head + " #[repr(C)] #[allow(non_camel_case_types)] #[must_use]"
     W = wname(guise)
     wty = W
     if "macro_ty" in guise and any(o["sel"] == "key" for v in L["variants"] for f in v["fields"] for o in f["cmp"].values()):
@@ -121,15 +136,15 @@ def item_src(L, entry, order=0, generic=False, guise=()):
     if L["kind"] == "struct":
         v = L["variants"][0]
         if v["shape"] == "named":
-            item = "%s pub struct Lf%s%s%s" % (head, gp, " where" if ew else "", fields(v))
+            item = "%s pub struct %s%s%s%s" % (head, tname(L), gp, " where" if ew else "", fields(v))
         else:
-            item = "%s pub struct Lf%s%s%s;" % (head, gp, fields(v), " where" if ew else "")
+            item = "%s pub struct %s%s%s%s;" % (head, tname(L), gp, fields(v), " where" if ew else "")
     else:
         vs = []
         for i, v in enumerate(L["variants"]):
             fa = "#[doc = \"v\"] " if "foreign_attrs" in guise else ""
             vs.append("%s%s%s%s" % (fa, "#[default] " if L["dvar"] == i + 1 else "", v["name"], fields(v, i)))
-        item = "%s pub enum Lf%s%s { %s }" % (head, gp, " where" if ew else "", ", ".join(vs))
+        item = "%s pub enum %s%s%s { %s }" % (head, tname(L), gp, " where" if ew else "", ", ".join(vs))
     pre = "type Wa = %s; " % W if "alias_ty" in guise else ""
     if "macro_ty" in guise:
         return "%smacro_rules! mk_lf { ($t:ty) => { %s } } mk_lf!(%s);" % (pre, item, W)
@@ -137,7 +152,7 @@ def item_src(L, entry, order=0, generic=False, guise=()):
 
 
 def path(L, vi):
-    return "Lf" if L["kind"] == "struct" else "Lf::%s" % L["variants"][vi - 1]["name"]
+    return tname(L) if L["kind"] == "struct" else "%s::%s" % (tname(L), L["variants"][vi - 1]["name"])
 
 
 def ctor(L, vi, args):
@@ -168,7 +183,7 @@ def helpers(L, generic=False, W=W):
         fargs = "".join(", %s.0, %s.1" % (x, x) for x in names)
         arms_p.append("            %s => format!(\"{{\\\"v\\\":%d,\\\"f\\\":[%s]}}\"%s)," % (pat(L, vi, names), vi, fs, fargs))
         arms_d.append("            %s => %s," % (pat(L, vi, names), ctor(L, vi, ["%s(%s.0, %s.1)" % (W, x, x) for x in names])))
-    alias = "    type LfT = Lf%s;\n" % ("<%s>" % W if generic and generic_slot(L) else "")
+    alias = "    type LfT = %s%s;\n" % (tname(L), "<%s>" % W if generic and generic_slot(L) else "")
     return (alias + "    fn proj(x: &LfT) -> String {\n        match x {\n%s\n        }\n    }\n"
             "    fn dup(x: &LfT) -> LfT {\n        match x {\n%s\n        }\n    }\n"
             "    fn code(o: ::core::option::Option<::core::cmp::Ordering>) -> i32 { match o { ::core::option::Option::None => 2, ::core::option::Option::Some(::core::cmp::Ordering::Less) => -1, "
